@@ -1,0 +1,29 @@
+//go:build verif
+
+// C18 contracts for package util (comment-only; read by /verif/vc).
+package util
+
+// 24-bit and 48-bit big-endian integers (RFC 6347 4.2.2 uint24, 4.1 uint48): most significant byte first.
+
+//@ func BigEndianUint24
+//@ inline
+//@ ensures value: len(raw) >= 3 ==> result == uint32(raw[0])<<16 | uint32(raw[1])<<8 | uint32(raw[2])
+//@ ensures range: result <= 0xFFFFFF
+//@ ensures short: len(raw) < 3 ==> result == 0
+//@ ensures input-unchanged: forall(0, len(raw), func(i int) bool { return raw[i] == old(raw[i]) })
+//@ end
+
+//@ func PutBigEndianUint24
+//@ inline
+//@ ensures layout: len(out) >= 3 ==> out[0] == byte(in >> 16) && out[1] == byte(in >> 8) && out[2] == byte(in)
+//@ ensures frame: forall(3, len(out), func(i int) bool { return out[i] == old(out[i]) })
+//@ ensures round-trip: len(out) >= 3 && in <= 0xFFFFFF ==> uint32(out[0])<<16 | uint32(out[1])<<8 | uint32(out[2]) == in
+//@ end
+
+//@ func PutBigEndianUint48
+//@ inline
+//@ ensures layout: len(out) >= 6 ==> out[0] == byte(in >> 40) && out[1] == byte(in >> 32) && out[2] == byte(in >> 24)
+//@    && out[3] == byte(in >> 16) && out[4] == byte(in >> 8) && out[5] == byte(in)
+//@ ensures frame: forall(6, len(out), func(i int) bool { return out[i] == old(out[i]) })
+//@ ensures round-trip: len(out) >= 6 && in <= 0xFFFFFFFFFFFF ==> uint64(out[0])<<40 | uint64(out[1])<<32 | uint64(out[2])<<24 | uint64(out[3])<<16 | uint64(out[4])<<8 | uint64(out[5]) == in
+//@ end
